@@ -8,7 +8,9 @@ KEYS = ["goodwe.modbus._modbus_checksum", "goodwe.modbus.validate_modbus_rtu_res
 
 
 def units(tier):
-    return (contract_units(SIDECARS, KEYS, tier) + bv_units(SIDECARS, KEYS[0], (0,), tier)
+    resp = [("script", SIDECARS, "pyvc.sensor_harness", "response_construction", f"response:{kind}", ("C02", "C12"),
+             tier, {"kind": kind}) for kind in ("rtu", "tcp", "aa55")]
+    return (resp + contract_units(SIDECARS, KEYS, tier) + bv_units(SIDECARS, KEYS[0], (0,), tier)
             + diff_units(SIDECARS, KEYS, tier))
 
 
